@@ -355,13 +355,13 @@ type SparseConstFloat64VectorJointIterator struct {
   idx int
   s1 ConstFloat64
   s2 ConstScalar
+  ok bool
 }
 func (obj *SparseConstFloat64VectorJointIterator) Index() int {
   return obj.idx
 }
 func (obj *SparseConstFloat64VectorJointIterator) Ok() bool {
-  return !(obj.s1.GetFloat64() == float64(0)) ||
-         !(obj.s2.GetFloat64() == float64(0))
+  return obj.ok
 }
 func (obj *SparseConstFloat64VectorJointIterator) Next() {
   ok1 := obj.it1.Ok()
@@ -382,6 +382,9 @@ func (obj *SparseConstFloat64VectorJointIterator) Next() {
       obj.s2 = obj.it2.GetConst()
     }
   }
+  // the iterator is valid as long as one of the vectors delivered an entry,
+  // regardless of its value
+  obj.ok = ok1 || ok2
   if obj.s1 != ConstFloat64(0) {
     obj.it1.Next()
   }
@@ -404,6 +407,7 @@ func (obj *SparseConstFloat64VectorJointIterator) CloneConstJointIterator() Vect
   r.idx = obj.idx
   r.s1 = obj.s1
   r.s2 = obj.s2
+  r.ok = obj.ok
   return &r
 }
 /* math
